@@ -106,22 +106,25 @@ static Op gen_op(FDP& f, int nreg, int unreg_client, bool allow_hello, std::vect
 // modelled answer or NoMemory, nothing else changes, nothing leaks, and the retry is answered as modelled.
 static Op gen_query(FDP& f, int nreg) {
   Op op; int c = (int)pick(f, nreg); op.c = c;
-  int kind = (int)pick(f, 12); int nk = (int)pick(f, 5); int t = (int)pick(f, nreg);
-  static const char* const kMember[] = {"GetNameOwner", "NameHasOwner", "ListQueuedOwners", "GetConnectionUnixUser", "GetConnectionCredentials", "GetConnectionUnixProcessID", "ListNames", "ListActivatableNames", "GetId", "Introspect", "GetAll", "ReloadConfig"};
+  int kind = (int)pick(f, 14); int nk = (int)pick(f, 5); int t = (int)pick(f, nreg);
+  static const char* const kMember[] = {"GetNameOwner", "NameHasOwner", "ListQueuedOwners", "GetConnectionUnixUser", "GetConnectionCredentials", "GetConnectionUnixProcessID", "ListNames", "ListActivatableNames", "GetId", "Introspect", "GetAll", "ReloadConfig", "NoSuchMethod", "GetNameOwner"};
   std::string member = kMember[kind];
   bool takes_name = kind <= 5;
   std::string fixed = nk == 0 ? kNames[0] : nk == 1 ? kNames[1] : nk == 2 ? BUS_NAME : nk == 3 ? "" : "com.vp.Nobody";
-  op.desc = "client" + std::to_string(c) + " " + member + (takes_name ? "(" + (nk == 3 ? "client" + std::to_string(t) : fixed) + ")" : "()");
+  op.desc = "client" + std::to_string(c) + " " + member + (kind == 13 ? "(u 7)" : takes_name ? "(" + (nk == 3 ? "client" + std::to_string(t) : fixed) + ")" : "()");
   op.make = [=](Hist& h) {
     if (kind == 9) { Msg m = driver_call("Introspect", {}); m.set_str(F_INTERFACE, 's', "org.freedesktop.DBus.Introspectable"); if (nk & 1) m.set_str(F_PATH, 'o', "/"); return m; }
     if (kind == 10) { Msg m = driver_call("GetAll", {Value::str('s', BUS_IFACE)}); m.set_str(F_INTERFACE, 's', "org.freedesktop.DBus.Properties"); return m; }
+    if (kind == 13) return driver_call(member, {Value::basic('u', 7)});   // wrong argument type
     if (!takes_name) return driver_call(member, {});
     return driver_call(member, {Value::str('s', nk == 3 ? h.uniq(t) : fixed)});
   };
   op.apply = [=](BusModel& m, const Msg& r, Out& o) {
     std::string me = m.conns[c].unique;
     auto any = [&]() { Exp e = exp_reply(me, r.serial, {}); e.any_body = true; m.emit_to(c, e, o); };
-    if (kind == 11) { m.emit_to(c, exp_reply(me, r.serial, {}), o); return; }   // the configuration file is unchanged: reloading it changes nothing
+    if (kind == 11) { m.emit_to(c, exp_reply(me, r.serial, {}), o); return; }
+    if (kind == 12) { m.emit_to(c, exp_error(me, r.serial, "org.freedesktop.DBus.Error.UnknownMethod"), o); return; }
+    if (kind == 13) { m.emit_to(c, exp_error(me, r.serial, "org.freedesktop.DBus.Error.InvalidArgs"), o); return; }   // the configuration file is unchanged: reloading it changes nothing
     if (!takes_name) { any(); return; }
     std::string name = r.body.empty() ? "" : r.body[0].s;
     std::string own = name == BUS_NAME ? std::string(BUS_NAME) : m.owner_unique(name);
